@@ -305,7 +305,21 @@ pub struct Baseline {
     pub build_err: Option<String>,
 }
 
+/// The sequential run of every operation. If it panics (a defect in construction or in a
+/// search, present without any concurrency) the workload cannot be judged for C14.
 pub fn baseline(w: &Workload) -> Baseline {
+    match std::panic::catch_unwind(std::panic::AssertUnwindSafe(|| baseline_inner(w))) {
+        Ok(b) => b,
+        Err(_) => Baseline {
+            image: vec![],
+            stats: (0, 0),
+            results: Default::default(),
+            build_err: Some("the single-threaded run panicked".into()),
+        },
+    }
+}
+
+fn baseline_inner(w: &Workload) -> Baseline {
     let mut b = Baseline {
         image: vec![],
         stats: (0, 0),
@@ -870,7 +884,10 @@ fn lockstep_scenario(ls: &Arc<Lockstep>, want: &Arc<Vec<Mt>>) {
 }
 
 pub fn lockstep_expected(ls: &Lockstep) -> Option<Vec<Mt>> {
-    pma::build(&ls.spec).ok().map(|p| pma::search(&*p, ls.method, &ls.content))
+    std::panic::catch_unwind(std::panic::AssertUnwindSafe(|| {
+        pma::build(&ls.spec).ok().map(|p| pma::search(&*p, ls.method, &ls.content))
+    }))
+    .unwrap_or(None)
 }
 
 pub fn lockstep_explore(ls: &Lockstep, sched: Sched, sched_seed: u64, iterations: usize) -> ExploreResult {
